@@ -24,19 +24,35 @@ def build(repo, findings):
     ])
     u.add(f)
     u.raw('}\n')
+    sx = u.source('brush-core/src/shell/expansion.rs')
+    joiner_ty = 'Option<char>' if sx.has(r'fn get_ifs_first_char\(&self\) -> Option<char>') else ('String' if sx.has(r'fn get_ifs_first_char\(&self\) -> String') else 'char')
+    u.raw('pub type StarJoiner = %s;\n' % ('String' if joiner_ty != 'char' else 'char'))
+    u.raw('impl Shell {')
+    h = sx.method_anywhere('ifs').r1().r11()
+    h.resub(r"Cow<'_, str>", 'String', 'R17', 'Cow<str> erased to its owned form', count=None)
+    h.resub(r'\.unwrap_or_else\(\|\| " \\t\\n"\.into\(\)\)', '.unwrap_or(vx_default_ifs())', 'R14', 'unwrap_or_else(closure yielding the default IFS) -> unwrap_or(stub with that text)', count=None)
+    h.sig('ifs', ret='r', ensures=[C('C05 ifs-is-the-variable-or-space-tab-newline-when-unset', 'r@ == self.ifs_text()')])
+    u.add(h)
+    k = sx.method_anywhere('get_ifs_first_char').r1().r11()
+    k.resub(r'self\.ifs\(\)\.chars\(\)\.next\(\)', 'vx_first_char(&self.ifs())', 'R14', 'chars().next() -> stub (the first character, if any)', count=None)
+    k.sig('get_ifs_first_char', ret='r', ensures=[C('C05 first-character-of-ifs', 'self.ifs_text().len() > 0 ==> r.vx_sep() == seq![self.ifs_text()[0]]')])
+    u.add(k)
+    u.raw('}\n')
     fn = 'star_joiner'
-    g = ex.slice('process_double_quoted_pieces', r'^\s*let concatenation_joiner = ', r'^\s*let concatenation_joiner = ',
-                 'fn star_joiner(self_: &WordExpander) -> char', fn)
-    g.r1().resub(r'\bself\.', 'self_.', 'R6', 'slice wrapper: self -> self_', count=None)
+    g = ex.slice('process_double_quoted_pieces', r'^\s*let concatenation_joiner = ', r';$',
+                 'fn star_joiner(self_: &WordExpander) -> StarJoiner', fn)
+    g.r1().resub(r'\bself\b(?!_)', 'self_', 'R6', 'slice wrapper: self -> self_', count=None)
+    g.resub(r'self_\s*\.shell\s*\.get_ifs_first_char\(\)\s*\.map\(String::from\)\s*\.unwrap_or_default\(\)', 'vx_char_opt_to_string(self_.shell.get_ifs_first_char())', 'R14', 'Option<char>::map(String::from).unwrap_or_default() -> stub (that character as a string, or the empty string)', count=None)
     g.resub(r'\n\}$', '\n    concatenation_joiner\n}', 'R6', 'wrapper epilogue returning the live variable', count=1)
-    g.sig(fn, ret='r', ensures=[C('C05 star-joins-with-the-first-character-of-ifs-whatever-it-is', 'r == self_.shell.ifs_first()')])
+    g.sig(fn, ret='r', ensures=[C('C05 star-joins-with-the-first-character-of-ifs-whatever-it-is-and-with-nothing-when-ifs-is-empty kf=C05:star-with-empty-ifs-joins-with-a-space',
+                               '{{KF:C05:star-with-empty-ifs-joins-with-a-space}} || r.vx_sep() == self_.shell.star_separator()')])
     u.add(g)
     u.raw(FOOTER)
-    u.assume('external_body', 'Env::get_str (the value as text, None when not set), users::get_current_user_home_dir, PathBuf::from, Shell::get_ifs_first_char: results uninterpreted')
+    u.assume('external_body', 'Env::get_str (the value as text, None when not set), users::get_current_user_home_dir, PathBuf::from, Shell::env_str: results uninterpreted; the R14 stubs')
     u.assume('assume_specification', 'Option::filter (std documented behaviour)')
-    u.assume('uninterp', 'env_str, os_home, path_of, Shell::ifs_first')
+    u.assume('uninterp', 'env_str, os_home, path_of')
     u.assume('stub', 'the tilde arm that calls home_dir (U23) and the rest of process_double_quoted_pieces (where the joiner is put between the elements) are NOT covered here')
-    u.expected_min_fns = 2
+    u.expected_min_fns = 4
     u.counterexample = replay_scripts(repo, [
         ('HOME=; x=~; y=~/x; echo "<$x> <$y>"', '<> </x>\n'),
         ("IFS=$'\\n'; set -- a 'b c' d; x=\"$*\"; set -- \"$x\"; echo $#; printf '%s' \"$x\" | tr '\\n' '|'; echo", '1\na|b c|d\n'),
